@@ -134,6 +134,16 @@ package client
 // section - closes the previous implementation, installs the new one and clears the close latch, and only then
 // starts receiving from exactly that implementation. (A Close that runs after that critical section therefore
 // finds the new implementation installed and its latch is seen by run after at most one more message.)
+// One attempt per client type (its own goroutine): a failure is reported as exactly ONE plain error on the error
+// channel - getFirst counts reported errors against the number of types to know that all of them failed, and the error
+// list it collects them in flattens error lists - and a success is offered on the implementation channel or closed.
+//@ func captured fn in getFirst$1 (ctx, typ, input)
+//@   ensures res1 == nil ==> res0 != nil
+//@ func getFirst$1
+//@   props C18 C12
+//@   requires fn != nil && errC != nil && implC != nil && done != nil && !closed(errC) && !closed(implC) && errC != implC
+//@   modifies sends(errC), sends(implC), ghost implCloses
+//@   ensures [a-failed-attempt-reports-exactly-one-plain-error C18] sends(errC) <= old(sends(errC)) + 1 && (sends(errC) == old(sends(errC)) + 1 ==> lastsent(errC) != nil && plainErr(lastsent(errC)))
 //@ func getFirst
 //@   trusted
 //@   ensures res1 == nil ==> res0 != nil
